@@ -1,4 +1,73 @@
-import CgreenModel.Model.Runner
+import CgreenModel.Lemmas.Runner
+/-!
+# C01 — the run verdict is failure iff some test failed or ended abnormally
+
+Property theorems only. `run cfg t` is the model of `run_test_suite()` (Model/Runner.lean);
+`Tree.truth` is what happened, computed from the test scripts alone.
+-/
 namespace Cgreen
-theorem C01_placeholder : True := trivial
+
+/-- The verdict of a completed run is success exactly when no executed check failed and no test ended
+abnormally — for every suite tree, every capacity, forked and in-process execution. -/
+theorem C01_verdict (cap : Nat) (hcap : 0 < cap) (m : Mode) (t : Tree) (hok : t.AllOk cap m) :
+    verdict (run ⟨cap, m⟩ t) = some (if (t.truth cap).f = 0 ∧ (t.truth cap).e = 0 then 0 else 1) := by
+  obtain ⟨hh, _, ht, _⟩ := run_spec cap hcap m t hok
+  simp only [verdict, hh, Option.isSome_none, Bool.false_eq_true, if_false, ht]
+  by_cases h1 : (t.truth cap).f = 0 <;> by_cases h2 : (t.truth cap).e = 0 <;> simp [h1, h2]
+
+/-- … and "no executed check failed and no test ended abnormally" is meant per test, anywhere in the tree. -/
+theorem C01_anywhere (cap : Nat) (t : Tree) :
+    ((t.truth cap).f = 0 ∧ (t.truth cap).e = 0)
+      ↔ ∀ x ∈ t.allTests, (x.2.2.truth cap x.1 x.2.1).f = 0 ∧ (x.2.2.truth cap x.1 x.2.1).e = 0 := by
+  rw [Tree.truth_eq_sum]; exact sumTruth_clean cap _
+
+/-- What the caller of the process sees says "success" exactly in that case. -/
+theorem C01_process (cap : Nat) (hcap : 0 < cap) (m : Mode) (t : Tree) (hok : t.AllOk cap m) :
+    (run ⟨cap, m⟩ t).procEnd.success = true ↔ ((t.truth cap).f = 0 ∧ (t.truth cap).e = 0) := by
+  obtain ⟨hh, _, ht, _⟩ := run_spec cap hcap m t hok
+  simp only [St.procEnd, hh, ht, ProcEnd.success]
+  by_cases h1 : (t.truth cap).f = 0 <;> by_cases h2 : (t.truth cap).e = 0 <;> simp [h1, h2]
+
+/-- A test is counted as ended abnormally exactly when its process ended before the completion notice
+or was killed by a signal after it. -/
+theorem C01_exception_iff (cap : Nat) (su td : Bool) (t : Test) :
+    (t.truth cap su td).e = (if t.abnormal cap su td then 1 else 0) := by
+  unfold Test.truth Proc.truth Test.abnormal Proc.abnormal
+  by_cases hx : t.xskip = true
+  · simp [hx, Rec.cnt]
+  · have hx' : t.xskip = false := by simpa using hx
+    simp only [hx', Bool.false_eq_true, if_false, Cnt.add_def]
+    by_cases hd : ((runCode cap [] su td t).dead.isSome || (runCode cap [] su td t).late.isSome) = true
+    · by_cases hs : Rec.skipped ∈ List.filter (fun x => x != Rec.completion) (runCode cap [] su td t).pipe <;>
+        simp [hd, hs, Rec.cnt, Cnt.zero_def]
+    · by_cases hs : Rec.skipped ∈ List.filter (fun x => x != Rec.completion) (runCode cap [] su td t).pipe <;>
+        simp [hd, hs, Rec.cnt, Cnt.zero_def]
+
+/-- In-process execution: when test code ends the process that owns the verdict, the way the process
+ends never says "success" — except through `_exit(0)`, which the library cannot intercept (known
+finding F04b). -/
+theorem C01_killed (s : St) (d : Death) (h : s.halted = some d) (hd : d ≠ .uexit0) :
+    s.procEnd.success = false := by
+  cases d <;> simp_all [St.procEnd, ProcEnd.success]
+
+/-- Witness for F04b: the excluded case really is a failure of the full statement. -/
+theorem C01_uexit_witness :
+    (run ⟨4096, .inproc⟩ (.node "top" false false [] [{ name := "t", body := [.check false, .die .uexit0] }])).procEnd.success = true := by
+  decide
+
+/-! Non-vacuity: a concrete non-trivial tree meets the hypotheses. -/
+def exampleTree : Tree :=
+  .node "top" false true
+    [.node "sub" true false [] [{ name := "a", body := [.check true, .check false, .decl false] },
+                                { name := "b", xskip := true }]]
+    [{ name := "c", ctx := some ([.check true], [.check false]), body := [.check true, .die (.signal 11), .check true] },
+     { name := "d", body := [.skip, .check true] }]
+
+example : exampleTree.AllOk 4096 .fork := by
+  simp [exampleTree, Tree.AllOk, allOkSubs, Test.ok, Proc.ok]
+  decide
+
+example : verdict (run ⟨4096, .fork⟩ exampleTree) = some 1 := by decide
+example : exampleTree.truth 4096 = ⟨4, 2, 2, 1⟩ := by decide
+
 end Cgreen
